@@ -115,7 +115,7 @@ type vhEnv struct {
 
 func vhBatch() []byte {
 	data := make([]byte, 70)
-	binary.BigEndian.PutUint32(data[8:12], 58)  // batch length
+	binary.BigEndian.PutUint32(data[8:12], 58) // batch length
 	binary.BigEndian.PutUint32(data[57:61], 1) // one record
 	copy(data[61:], []byte("verif-rec"))
 	return data
@@ -705,8 +705,8 @@ func (e *vhEnv) setup(ctx context.Context, endpoints []string) {
 			return c
 		}
 		e.cliA, e.cliB = newCli(), newCli()
-		e.leaseA = metadata.NewPartitionLeaseManager(e.cliA, metadata.PartitionLeaseConfig{BrokerID: "A", Logger: testLoggerVH()})
-		e.leaseB = metadata.NewPartitionLeaseManager(e.cliB, metadata.PartitionLeaseConfig{BrokerID: "B", Logger: testLoggerVH()})
+		e.leaseA = metadata.NewPartitionLeaseManager(e.cliA, metadata.PartitionLeaseConfig{BrokerID: "A", LeaseTTLSeconds: 60, Logger: testLoggerVH()})
+		e.leaseB = metadata.NewPartitionLeaseManager(e.cliB, metadata.PartitionLeaseConfig{BrokerID: "B", LeaseTTLSeconds: 60, Logger: testLoggerVH()})
 		h.leaseManager = e.leaseA
 		e.leaseUp = true
 	} else {
@@ -774,7 +774,9 @@ func (e *vhEnv) teardown() {
 	}
 }
 
-func testLoggerVH() *slog.Logger { return slog.New(slog.NewTextHandler(io.Discard, &slog.HandlerOptions{})) }
+func testLoggerVH() *slog.Logger {
+	return slog.New(slog.NewTextHandler(io.Discard, &slog.HandlerOptions{}))
+}
 
 func TestVerifHandlerReplay(t *testing.T) {
 	in, outPath := os.Getenv("VERIF_SCHEDULES"), os.Getenv("VERIF_TRACE_OUT")
